@@ -350,6 +350,8 @@ func (e *endpointManager) SelectAdapterProxy(msg *Message) (*AdapterProxy, bool)
 	case adp := <-e.checkAdapter:
 		TLOG.Errorf("SelectAdapterProxy|check adapter, ep: %+v", adp.GetPoint())
 		e.checkAdapterList.Delete(endpoint.Tars2endpoint(*adp.GetPoint()).Key)
+		// the probe interval counts from this probe call, not from the moment the candidate was queued
+		atomic.StoreInt64(&adp.lastBlockTime, time.Now().Unix())
 		return adp, true
 	default:
 	}
